@@ -150,6 +150,18 @@ let e2e_case b =
   Buffer.add_string b ("o:" ^ Buffer.contents outs ^ " v:" ^ Buffer.contents bits);
   Buffer.add_string b " par=seq:1 off=stock:1 final:1 fund:1"
 
+(* ---- the rule on an arbitrary journal ---- *)
+let rule_case b =
+  let _malformed = next () in
+  let n = int_of_string (next ()) in
+  let txs = list_init n read_tx in
+  let txid = next_nat () in
+  let cp = next_nat () in
+  let st = read_state () in
+  let ne = int_of_string (next ()) in
+  let entries = list_init ne read_entry in
+  Buffer.add_string b (if reserve_violation txs txid entries cp st then "v:1" else "v:0")
+
 let () =
   try
     while true do
@@ -162,6 +174,7 @@ let () =
         | "planner" -> planner_case b
         | "journal" -> journal_case b
         | "e2e" -> e2e_case b
+        | "rule" -> rule_case b
         | k -> Buffer.add_string b ("? " ^ k)
       with e -> Buffer.add_string b (" DRIVER-ERROR " ^ Printexc.to_string e));
       print_endline (Buffer.contents b)
